@@ -96,6 +96,13 @@ func (g *gw) finish() World {
 		ops = append(ops, Op{Kind: "tick", Dt: g.F - now})
 	}
 	g.W.Ops = ops
+	// one fault per world (the model's fault plan is a single enum): an injected List failure wins over an
+	// unparsable PDB selector
+	if g.W.Fault != "" {
+		for i := range g.W.PDBs {
+			g.W.PDBs[i].Invalid = false
+		}
+	}
 	g.W.Nodes = nil
 	for _, n := range g.nodes {
 		g.W.Nodes = append(g.W.Nodes, *n)
